@@ -17,6 +17,7 @@ import pipeline
 import resp
 import c03_docs as D
 import c03_mint
+import c03_sources as S
 from c03_docs import E
 from pipeline import A, R
 from core import Exn, call, cstr, cbool, copt, clist
@@ -395,7 +396,7 @@ def run(ctx):
         ctx.oracle_fail("harness-certificate-window", complaint, None)
     with env.Clock(NOW):
         import time
-        for u in (unit_response_level, unit_certs, unit_documents, unit_direct, unit_messages, unit_history):
+        for u in (unit_response_level, unit_certs, unit_sources, unit_documents, unit_direct, unit_messages, unit_history):
             t0 = time.time()
             u(ctx)
             ctx.notes.append("%s: %.1fs" % (u.__name__, time.time() - t0))
@@ -812,6 +813,200 @@ def unit_history(ctx):
                    "fun ops : list op => show_verdicts (snd (run_ops %s [] ops))" % clist(cls, pcfg_coq), "(list op)", cases, shard=1)
 
 
+
+# ---------------------------------------------------------------------------------------------
+# (6) metadata sources other than local files: MDQ / MDX (lazy, one HTTP GET per entity id, answers cached), remote,
+#     inline - and answers that do not match the question.  The certificates a signature for issuer B is checked
+#     under must come from a descriptor whose entityID IS B - never from whatever the source was handed.
+# ---------------------------------------------------------------------------------------------
+LA = [("signing", ["idp"])]
+LB = [("signing", ["idp2"]), ("encryption", ["sp2"])]
+LA_OTHER = [("signing", ["other"])]
+LB_OTHER = [(None, ["other"])]
+LB_ENC = [("encryption", ["idp2"])]
+LU = [("signing", ["other"])]
+SRC_ISSUERS = {"idp1": IDP_ID, "idp2": IDP2_ID, "unknown": UNKNOWN_ID}
+
+
+def ents(*pairs, **kw):
+    return dict(kind="ents", ents=[(n, l) for n, l in pairs], **kw)
+
+
+def status(code, *pairs):
+    return dict(kind="status", status=code, ents=[(n, l) for n, l in pairs])
+
+
+def mdq(**answers):
+    return dict(typ="mdq", answers=answers)
+
+
+OWN = dict(idp1=[ents(("idp1", LA))], idp2=[ents(("idp2", LB))])
+SOURCE_CLASSES = {
+    # (i) the answer for B is B's own descriptor
+    "mdq-own": [mdq(**OWN)],
+    # (ii) the answer for B is a descriptor with ANOTHER entityID: a fallback / mixed-up / replayed answer
+    "mdq-another": [mdq(idp1=[ents(("idp1", LA))], idp2=[ents(("idp1", LA))])],
+    "mdq-another-rekeyed": [mdq(idp1=[ents(("idp1", LA_OTHER))], idp2=[ents(("idp1", LA))])],
+    "mdq-default-entity": [mdq(idp1=[ents(("idp1", LA))], idp2=[ents(("idp2", LB))], unknown=[ents(("idp1", LA))])],
+    "mdq-swapped": [mdq(idp1=[ents(("idp2", LB))], idp2=[ents(("idp1", LA))])],
+    # (iii) an aggregate containing A and B (both orders), one without the asked id, one with the asked id twice
+    "mdq-aggregate-AB": [mdq(idp1=[ents(("idp1", LA), ("idp2", LB))], idp2=[ents(("idp1", LA), ("idp2", LB))])],
+    "mdq-aggregate-BA": [mdq(idp2=[ents(("idp2", LB), ("idp1", LA))])],
+    "mdq-aggregate-without-asked": [mdq(idp2=[ents(("idp1", LA), ("unknown", LU))], idp1=[ents(("idp1", LA))])],
+    "mdq-aggregate-of-one-other": [mdq(idp2=[ents(("idp1", LA), agg=True)])],
+    "mdq-aggregate-twice": [mdq(idp2=[ents(("idp2", LB_OTHER), ("idp2", LB), ("idp1", LA))])],
+    # (iv) 404 / 500 with B's descriptor as body / empty / garbage / well-formed XML that is no metadata
+    "mdq-404": [mdq(idp1=[ents(("idp1", LA))])],
+    "mdq-500-with-body": [mdq(idp2=[status(500, ("idp2", LB))], idp1=[status(404, ("idp1", LA))])],
+    "mdq-empty": [mdq(idp2=[dict(kind="empty")], idp1=[ents(("idp1", LA))])],
+    "mdq-garbage": [mdq(idp2=[dict(kind="garbage")], idp1=[ents(("idp1", LA))])],
+    "mdq-other-xml": [mdq(idp2=[dict(kind="other-xml")], idp1=[ents(("idp1", LA))])],
+    # (v) first lookup vs second lookup of the same id
+    "mdq-404-then-own": [mdq(idp2=[status(404), ents(("idp2", LB))], idp1=[ents(("idp1", LA))])],
+    "mdq-another-then-own": [mdq(idp2=[ents(("idp1", LA)), ents(("idp2", LB))], idp1=[ents(("idp1", LA_OTHER))])],
+    "mdq-own-then-another": [mdq(idp2=[ents(("idp2", LB)), ents(("idp1", LA))], idp1=[ents(("idp1", LA))])],
+    "mdq-own-then-rekeyed": [mdq(idp2=[ents(("idp2", LB)), ents(("idp2", LB_OTHER))], idp1=[ents(("idp1", LA))])],
+    "mdq-garbage-then-another": [mdq(idp2=[dict(kind="garbage"), ents(("idp1", LA)), status(404)])],
+    # named like the issuer, no signing key in it
+    "mdq-enc-only": [mdq(idp2=[ents(("idp2", LB_ENC))], idp1=[ents(("idp1", LA))])],
+    "mdq-enc-only-in-aggregate": [mdq(idp2=[ents(("idp1", LA), ("idp2", LB_ENC))])],
+    # several sources, in the order of the configuration
+    "inline+mdq": [dict(typ="inline", fed=[("idp1", LA)]), mdq(idp1=[ents(("idp1", LA_OTHER))], idp2=[ents(("idp1", LA_OTHER))])],
+    "mdq-another+inline": [mdq(idp2=[ents(("idp1", LA))]), dict(typ="inline", fed=[("idp2", LB)])],
+    "mdq-own+inline-rekeyed": [mdq(**OWN), dict(typ="inline", fed=[("idp2", LB_OTHER), ("idp1", LA_OTHER)])],
+    "inline-A-only": [dict(typ="inline", fed=[("idp1", LA)])],
+    "remote": [dict(typ="remote", fed=[("idp1", LA), ("idp2", LB)])],
+    "remote-A-only": [dict(typ="remote", fed=[("idp1", LA)])],
+    "remote-twice": [dict(typ="remote", fed=[("idp2", LB_OTHER), ("idp1", LA), ("idp2", LB)])],
+    "remote-A+mdq-another": [dict(typ="remote", fed=[("idp1", LA)]), mdq(idp2=[ents(("idp1", LA))], unknown=[ents(("idp2", LB))])],
+    "mdq-404+remote": [mdq(), dict(typ="remote", fed=[("idp2", LB), ("idp1", LA)])],
+}
+SRC_KEYS = ["idp", "idp2", "other"]
+_net = [None]
+_src_xml = {}
+
+
+def net():
+    if _net[0] is None:
+        _net[0] = S.Net(lambda n, l: _src_md(n, l))
+    return _net[0]
+
+
+def _src_md(iname, layout):
+    k = (iname, json.dumps(layout))
+    if k not in _src_xml:
+        _src_xml[k] = idp_md(SRC_ISSUERS[iname], layout)
+    return _src_xml[k]
+
+
+def source_clients(ctx):
+    cls = []
+    for cname, sources in SOURCE_CLASSES.items():
+        for only_md in (True, False):
+            for order in ("B-first", "A-first"):
+                if ctx.quick and order == "A-first" and not any(s["typ"] == "mdq" for s in sources):
+                    continue
+                cls.append(dict(name="%s:%s:%s" % (cname, "on" if only_md else "off", order), cls=cname, sources=copy.deepcopy(sources),
+                                only_md=only_md, order=order))
+    cls.append(dict(name="mdq-another:unset:B-first", cls="mdq-another", sources=copy.deepcopy(SOURCE_CLASSES["mdq-another"]), only_md=None, order="B-first"))
+    return cls
+
+
+def source_ops(ctx, cl):
+    first, second = ("idp2", "idp1") if cl["order"] == "B-first" else ("idp1", "idp2")
+    k1, k2 = ("idp2", "idp") if first == "idp2" else ("idp", "idp2")
+    seq = [(first, k2, True), (first, k1, True), (first, k2, True), (second, k1, True), (second, k2, True), (first, k1, None), (first, "other", True),
+           ("unknown", k2, True), ("unknown", "other", None), (second, "other", True), (first, k2, True), (second, k1, True)]
+    for _ in range(6 if ctx.quick else 40):
+        seq.append((ctx.rng.choice(["idp1", "idp2", "idp2", "unknown"]), ctx.rng.choice(SRC_KEYS), ctx.rng.choice([True, True, None])))
+    return [dict(issuer=i, key=k, embed=e, entry="e2e" if j % 5 == 2 else "css") for j, (i, k, e) in enumerate(seq)]
+
+
+def source_run_op(sp, o):
+    dk = ("src", o["issuer"], o["key"], o["embed"])
+    if dk not in _xml:
+        _xml[dk] = build_signed(SRC_ISSUERS[o["issuer"]], o["key"], o["key"] if o["embed"] else None)
+    if o["entry"] == "e2e":
+        got = resp.observe(sp, _xml[dk], outstanding={"req-1": "/x"})
+        return isinstance(got, list), got
+    got = call(sp.sec.correctly_signed_response, _xml[dk], require_response_signature=True)
+    return not isinstance(got, Exn), got
+
+
+def layout_signing(layout):
+    return [ckey(c) for use, certs in layout if use in ("signing", None) for c in certs]
+
+
+def source_held(cl):
+    """descriptors (issuer name, layout) the client's sources hold or have been handed so far"""
+    held = []
+    for s in cl["sources"]:
+        if s["typ"] == "inline":
+            held += [(n, l) for n, l in s["fed"]]
+    return held + list(net().served.get(cl["name"], []))
+
+
+def source_types(cl):
+    return "+".join(s["typ"] for s in cl["sources"])
+
+
+def source_judge(cl, o, accepted, answered):
+    """the property on one outcome, from what the sources hold / were handed (no model): None | (key, what)"""
+    held = source_held(cl)
+    named = [layout_signing(l) for n, l in held if n == o["issuer"]]
+    s_any = set(k for s in named for k in s)
+    key, only = o["key"], only_on(cl)
+    cell = "issuer=%s:only_md=%s:embedded=%s:class=%s" % (o["issuer"], cl["only_md"], bool(o["embed"]), cl["cls"])
+    if accepted:
+        if key in s_any or (not only and not s_any and o["embed"]):
+            return None
+        others = sorted(set(n for n, l in held if n != o["issuer"] and key in layout_signing(l)))
+        if others:
+            return ("certs-of-another-entity:source=%s:%s" % (source_types(cl), cell),
+                    "signature by key %r accepted for issuer %s: no descriptor NAMED %s that the sources (%s) hold or were handed declares it as a signing key (%s) - "
+                    "it is the signing key of the descriptor(s) named %s, which the source was handed in answer to a question about somebody else%s" % (
+                        key, o["issuer"], o["issuer"], source_types(cl), sorted(s_any) or "no descriptor of that name at all" if not named else sorted(s_any),
+                        others, "" if only else "; the embedded certificate may be consulted only when metadata holds no signing key for the issuer"))
+        return ("trusted-foreign-key:%s:source=%s:only_md=%s:embedded=%s:class=%s" % (o["issuer"], source_types(cl), cl["only_md"], bool(o["embed"]), cl["cls"]),
+                "signature by key %r accepted for issuer %s although the descriptors named %s in the sources declare %s" % (key, o["issuer"], o["issuer"], sorted(s_any)))
+    if answered in ("garbage", "empty"):
+        return None                       # the source raised while parsing: whether that counts as "no metadata key" is left open
+    must = (bool(named) and all(key in s for s in named)) or (not only and not s_any and bool(o["embed"]))
+    if must:
+        return ("issuer-key-refused:%s:source=%s:only_md=%s:class=%s" % (o["issuer"], source_types(cl), cl["only_md"], cl["cls"]),
+                "signature refused although %s" % ("every descriptor named %s in the sources declares key %r for signing" % (o["issuer"], key) if named and all(key in s for s in named)
+                                                   else "metadata holds no signing key for %s, the setting is off and the embedded certificate holds the signer's key" % o["issuer"]))
+    return None
+
+
+def unit_sources(ctx):
+    import contextlib
+    import io
+    with contextlib.redirect_stderr(io.StringIO()):      # the library prints 'Duplicated Entity descriptor' for every repeated answer
+        _unit_sources(ctx)
+
+
+def _unit_sources(ctx):
+    n = net()
+    n.install()
+    try:
+        for cl in source_clients(ctx):
+            sp = S.build_client(cl, n, SRC_ISSUERS)
+            ops = source_ops(ctx, cl)
+            for j, o in enumerate(ops):
+                answered = n.peek(S.mdq_url(cl, SRC_ISSUERS[o["issuer"]]))["kind"] if any(s["typ"] == "mdq" for s in cl["sources"]) else None
+                accepted, got = source_run_op(sp, o)
+                ctx.nontriv(("source", cl["name"], j, tuple(sorted(o.items(), key=str))))
+                ctx.count("source:%s:%s" % (source_types(cl), "accepted" if accepted else "rejected:" + (got.name if isinstance(got, Exn) else "e2e")))
+                bad = source_judge(cl, o, accepted, answered)
+                if bad:
+                    ctx.oracle_fail(bad[0], "%s (client %s, operation %d of its history: %s)" % (bad[1], cl["name"], j, json.dumps(o)),
+                                    dict(kind="sources", client=cl, ops=ops[:j + 1], accepted=accepted))
+            if cl["name"] in ("mdq-another:on:B-first", "mdq-aggregate-AB:off:A-first"):
+                ctx.sample(dict(client=cl["name"], sources=cl["sources"], first_operations=ops[:3], requests=[u for u, _ in n.log if cl["name"] in u][:4]))
+    finally:
+        n.restore()
+
 # ---------------------------------------------------------------------------------------------
 def replay(ctx, payload):
     env.tool_inprocess(True)
@@ -838,6 +1033,19 @@ def replay(ctx, payload):
             print("client:", inp["client"], "\nmessage:", inp["message"], inp["elem"])
             got = call(getattr(make_client(inp["client"]).sec, "correctly_signed_" + inp["message"]), D.render_message(inp["message"], inp["elem"]), must=True)
             print("implementation outcome (fresh client):", got if isinstance(got, Exn) else "accepted", "- the property wants", "acceptance" if inp["want"] else "refusal")
+        elif inp.get("kind") == "sources":
+            n = S.Net(lambda nm, l: _src_md(nm, l))
+            n.install()
+            try:
+                print("client:", json.dumps(inp["client"]))
+                sp = S.build_client(inp["client"], n, SRC_ISSUERS)
+                for j, o in enumerate(inp["ops"]):
+                    before = len(n.log)
+                    acc, got = source_run_op(sp, o)
+                    print("op %d %s -> %s   requests: %s" % (j, json.dumps(o), "accepted" if acc else got, [(u.split("/entities/")[0], k) for u, k in n.log[before:]]))
+                print("descriptors handed to the sources:", json.dumps(n.served.get(inp["client"]["name"])))
+            finally:
+                n.restore()
         elif inp.get("kind") == "history":
             sps = [make_client(cl) for cl in inp["clients"]]
             for j, o in enumerate(inp["ops"]):
